@@ -617,7 +617,7 @@ RULES = {
     "non-trivial = run with >= 1 entailment or inconsistency and >= 1 backtrack (mp: >= 2 workers that made choices); distinct by SHA-1 of the canonical case",
 }
 STRATS = {"C08": c08_case, "C10": c10_case, "C17": c17_case}
-EXAMPLES = {"C08": {"quick": 700, "thorough": 7000}, "C10": {"quick": 500, "thorough": 5000}, "C17": {"quick": 1200, "thorough": 12000}}
+EXAMPLES = {"C08": {"quick": 1200, "thorough": 12000}, "C10": {"quick": 1500, "thorough": 15000}, "C17": {"quick": 1500, "thorough": 15000}}
 
 
 def jobs(prop, tier):
